@@ -5,10 +5,10 @@ Model/XferMd5 — the parts of the transfer-filter machinery that Model/Xfer doe
 * `xfer/gzip/gzip.go` : `gzipF comp decomp` over an abstract compressor pair (compress/gzip itself
   is not modelled), with the code's own special case "empty input unpacks to itself";
 * `xfer/xfer.go`      : `Reg`, `Get`, `GetByName` over an explicit entry list; `XferPipe.Append`
-  as coded (`appendSt`: ids are appended one by one, an unknown id aborts at that id, the length is
-  checked only after everything was appended, and nothing is rolled back), `AppendFrom`, `Range`,
-  `Reset`;
-* `context.go`        : the reply pipe computed by `AddXferPipe` / `handleCall`.
+  as coded (`appendLoop` / `appendSt`: ids are appended one by one, an unknown id aborts at that id,
+  the length is checked after everything was appended, and on either failure the pipe is cut back
+  to its old length), `AppendFrom` (refuses as a whole above 255), `Range`, `Reset`;
+* `context.go`        : the reply pipe computed by `AddXferPipe` / `handleCall` (`callPipe`).
 Core Lean only.
 -/
 import Teleport.Model.Xfer
@@ -86,19 +86,30 @@ def regAll : List Entry → List Entry → Option (List Entry)
 
 /-! ### xfer/xfer.go: XferPipe (a pipe is the list of the ids of its filters, outer-most first) -/
 
-/-- `XferPipe.Append(ids...)` exactly as coded: returns the pipe *afterwards* and whether the call
-    returned nil. An unknown id returns the error at once (ids before it stay appended, `check` is
-    not reached); otherwise all ids are appended and then `check()` compares the length with 255 —
-    a too-long pipe is reported but stays in place. -/
-def appendSt (reg : Registry) : List UInt8 → List UInt8 → List UInt8 × Bool
-  | cur, [] => (cur, decide (cur.length ≤ 255))
+/-- the `for _, id := range filterID` loop of `XferPipe.Append`: `Get(id)` then
+    `x.filters = append(x.filters, filter)`; `none` = `Get` failed on an unknown id (the loop is
+    left at that id). -/
+def appendLoop (reg : Registry) : List UInt8 → List UInt8 → Option (List UInt8)
+  | cur, [] => some cur
   | cur, i :: is =>
     match reg i with
-    | none => (cur, false)
-    | some _ => appendSt reg (cur ++ [i]) is
+    | none => none
+    | some _ => appendLoop reg (cur ++ [i]) is
 
-/-- `XferPipe.AppendFrom(src)`: no lookup, no length check. -/
-def appendFrom (cur src : List UInt8) : List UInt8 := cur ++ src
+/-- `XferPipe.Append(ids...)` exactly as coded: returns the pipe *afterwards* and whether the call
+    returned nil. `n := len(x.filters)`; an unknown id cuts the pipe back (`x.filters[:n]`) and
+    returns the error at once (`check` is not reached); otherwise all ids are appended and then
+    `check()` compares the length with 255 — a too-long pipe is cut back to `n` as well. Either
+    everything is appended or nothing is. -/
+def appendSt (reg : Registry) (cur ids : List UInt8) : List UInt8 × Bool :=
+  match appendLoop reg cur ids with
+  | none => (cur, false)
+  | some p => if p.length ≤ 255 then (p, true) else (cur, false)
+
+/-- `XferPipe.AppendFrom(src)`: no lookup; `if x.Len()+src.Len() > math.MaxUint8 { return }`,
+    else every filter of `src` is appended. -/
+def appendFrom (cur src : List UInt8) : List UInt8 :=
+  if cur.length + src.length > 255 then cur else cur ++ src
 
 /-- `XferPipe.Reset()` -/
 def reset (_cur : List UInt8) : List UInt8 := []
@@ -113,7 +124,8 @@ def range (cb : Nat → UInt8 → Bool) (p : List UInt8) : List (Nat × UInt8) :
 
 /-! ### context.go: pipe of the reply to a call -/
 
-/-- `handlerCtx.AddXferPipe(ids...)` = `c.output.XferPipe().Append(ids...)` with the error dropped. -/
+/-- `handlerCtx.AddXferPipe(ids...)` = `c.output.XferPipe().Append(ids...)`; an error is logged
+    (`Warnf`) and the call has no other effect. -/
 def addXferPipe (reg : Registry) (cur : List UInt8) (ids : List UInt8) : List UInt8 :=
   (appendSt reg cur ids).1
 
@@ -121,13 +133,19 @@ def addXferPipe (reg : Registry) (cur : List UInt8) (ids : List UInt8) : List UI
 def addAll (reg : Registry) (cur : List UInt8) (calls : List (List UInt8)) : List UInt8 :=
   calls.foldl (addXferPipe reg) cur
 
+/-- the pipe statements at the head of `handleCall`, on the output pipe `out` and the request's
+    pipe `req`: `if out.Len()+req.Len() > 255 { out.Reset() }` (the caller's pipe takes precedence
+    over filters added to the reply earlier), then `out.AppendFrom(req)`. -/
+def callPipe (out req : List UInt8) : List UInt8 :=
+  appendFrom (if out.length + req.length > 255 then reset out else out) req
+
 /-- the reply's pipe: the output message starts empty (`clean` resets it); `pre` are the
     `AddXferPipe` calls made before `handleCall` runs (plugins at post-read-header / pre-read-body),
-    then `handleCall` does `c.output.XferPipe().AppendFrom(c.input.XferPipe())`, then the handler
-    (and post-read-body / pre-write-reply plugins) make the calls `post`. -/
+    then `handleCall` runs `callPipe` with the request's pipe, then the handler (and post-read-body
+    / pre-write-reply plugins) make the calls `post`. -/
 def replyPipe (reg : Registry) (pre : List (List UInt8)) (req : List UInt8) (post : List (List UInt8)) :
     List UInt8 :=
-  addAll reg (appendFrom (addAll reg [] pre) req) post
+  addAll reg (callPipe (addAll reg [] pre) req) post
 
 /-- what `rawProto.Pack` writes for a pipe: `byte(Len())` then all ids. -/
 def wirePipe (p : List UInt8) : Bytes := (p.length % 256).toUInt8 :: p
